@@ -189,6 +189,21 @@ theorem conditional_assign_spec (hin : EnvIn [a0, a1, a2, a3, a4, a5, a6, a7, a8
   rw [h]
   split <;> simp_all [toZ_cons, toZ_nil]
 
+/-- `conditional_swap(a, b, c)` (five/ten `u64::conditional_swap` on the limbs): the pair unchanged if `c = 0`, exchanged if `c = 1` -/
+theorem conditional_swap_spec (hin : EnvIn [a0, a1, a2, a3, a4, a5, a6, a7, a8, a9, b0, b1, b2, b3, b4, b5, b6, b7, b8, b9, c] FiatField26.pre_conditional_swap) :
+    ∃ out, Dalek.Gen.FiatField26.conditional_swap.evalC [a0, a1, a2, a3, a4, a5, a6, a7, a8, a9, b0, b1, b2, b3, b4, b5, b6, b7, b8, b9, c] = some out ∧
+      Dalek.Gen.FiatField26.conditional_swap.evalW [a0, a1, a2, a3, a4, a5, a6, a7, a8, a9, b0, b1, b2, b3, b4, b5, b6, b7, b8, b9, c] = out ∧
+      out = if c = 0 then [a0, a1, a2, a3, a4, a5, a6, a7, a8, a9, b0, b1, b2, b3, b4, b5, b6, b7, b8, b9] else [b0, b1, b2, b3, b4, b5, b6, b7, b8, b9, a0, a1, a2, a3, a4, a5, a6, a7, a8, a9] := by
+  obtain ⟨out, hC, hW, hpost, hZ⟩ := Prog.norm_sound _ _ _ _ Dalek.Gen.Norm.FiatField26.conditional_swap_norm_ok _ hin
+  refine ⟨out, hC, hW, ?_⟩
+  have h := Dalek.Proofs.FiatField26.conditional_swap_correct a0 a1 a2 a3 a4 a5 a6 a7 a8 a9 b0 b1 b2 b3 b4 b5 b6 b7 b8 b9 c
+  rw [← Dalek.Gen.Norm.FiatField26.conditional_swap_fn_ok] at h
+  simp only [toZ_cons, toZ_nil] at hZ
+  rw [hZ] at h
+  apply Dalek.Proofs.Mont.toZ_inj
+  rw [h]
+  split <;> simp_all [toZ_cons, toZ_nil]
+
 end
 
 /-- non-vacuity: all limbs at the tight bound satisfy the contract of `mul` -/
